@@ -79,6 +79,12 @@ class TermScn:
             for gid in P.get("pre_exit", ()):
                 # a member that was exit()ed earlier (not yet joined) is still terminate()'s business
                 g[gid].exit()
+                if P.get("late_frame") and chans:
+                    # one more frame for the gateway that was just exit()ed (a late send / close / finalizer)
+                    try:
+                        chans[0].send("late")
+                    except BaseException:  # noqa: BLE001
+                        pass
                 em.sleep(P.get("pre_exit_pause", 0.0))
             w.exploring = True
             t0 = w.now
@@ -335,6 +341,8 @@ def run(tier: str, only=None) -> int:
                     continue
                 P = {"topo": topo, "model": "thread", "state": state, "timeout": 0.5, "moment": "settled", "pre_exit": ["a"], "pre_exit_pause": pause}
                 harness.run_exploration(rep, PID, name, TermScn, P, {"ps": 0, "free": 1} if tier == "quick" else {"ps": 1, "free": 1}, max_execs=cap, horizon=60000)
+                if state != "idle":
+                    harness.run_exploration(rep, PID, name + ":late-frame", TermScn, dict(P, late_frame=True), {"ps": 0, "free": 1}, max_execs=cap, horizon=60000)
     # a failing makegateway (id taken, sequentially or by a concurrent call) leaves no process behind
     from .c20_specs_ids import IdScn
     from .c20_specs_ids import stmt_pred as id_stmt_pred
